@@ -787,7 +787,17 @@ func genC14(t *rapid.T) c14Case {
 	var c c14Case
 	n := rapid.IntRange(0, 6).Draw(t, "history")
 	line := func() string {
-		switch rapid.IntRange(0, 8).Draw(t, "kind") {
+		switch rapid.IntRange(0, 9).Draw(t, "kind") {
+		case 9:
+			// plain text of one kind (ASCII only, or not), replacement text of the other, and markers in and behind trailing blanks:
+			// whatever a parser remembers about the kind of text it has seen shows here
+			plain := rapid.SampledFrom([]string{"is here", "Bob: is here", "x", "é là", "日本: 語"}).Draw(t, "plain")
+			rep := rapid.SampledFrom([]string{`[select value=f f="fiancée" m="fiance" /]`, `[nomarkup]é[/nomarkup]`, `[nomarkup]raw[/nomarkup]`, `[plural value=2 one="œuf" other="œufs" /]`, `[select value=m f="x" m="y" /]`}).Draw(t, "rep")
+			tail := rapid.SampledFrom([]string{" [wave/]", " [b]x [/b]", "[a] [/a] ", " [wave/] ", "[k/]"}).Draw(t, "tail")
+			if rapid.Bool().Draw(t, "repfirst") {
+				return rep + " " + plain + tail
+			}
+			return plain + " " + rep + tail
 		case 6, 7:
 			return genLiberalLine(t)
 		case 8:
